@@ -239,6 +239,10 @@ impl Prop for C04 {
                 let (x, y) = same_type(x, y);
                 Case { op: Op::Quantize, x, y, n: 0, mode }
             }),
+            2 => (arb_related_pair(), 0u8..3, arb_n(), 0u8..8).prop_map(|((x, y), o, n, mode)| Case {
+                op: match o { 0 => Op::MulRounded, 1 => Op::DivRounded, _ => Op::Quantize },
+                x: Opnd::Dec(x), y: Opnd::Dec(y), n, mode,
+            }),
             4 => divisor_scaled(),
             3 => div_tie(),
             3 => mul_tie(),
